@@ -19,9 +19,10 @@ inductive Order where
   | vlr | vrl | lvr | rvl | lrv | rlv | ascending | descending | other
   deriving DecidableEq, Repr, Inhabited
 
-/-- One API call.  The state is a pair of tables `(a, b)`: calls act on `a`; `swap` exchanges them (so
-that histories can build both operands of `Equal`); `selectMatch`/`partitionMatch` store the (first)
-table they return in `b`, so that histories can go on to use a derived table.  `allUntil n` ranges over
+/-- One API call.  The state is three tables `(a, b, c)`: calls act on `a`; `swap` exchanges `a` and `b`,
+`swapC` exchanges `a` and `c` (so that histories can build both operands of `Equal`); `selectMatch` stores
+the table it returns in `b`, `partitionMatch` stores the matched table in `b` and the unmatched one in `c`,
+so that histories can go on to use (and mutate) every derived table.  `allUntil n` ranges over
 `All()` and breaks after `n` pairs (`0` = never); `equalOther` is `Equal` against a table of another
 implementation type holding the same pairs (the Go code answers `false` whenever the dynamic types differ). -/
 inductive Op (K V : Type) where
@@ -31,6 +32,7 @@ inductive Op (K V : Type) where
   | deleteMax
   | deleteAll
   | swap
+  | swapC
   | size
   | isEmpty
   | height
@@ -131,7 +133,7 @@ def equal (cmp : K → K → Int) (eqVal : V → V → Bool) (m₁ m₂ : Map K 
 def takeLim (limit : Nat) (l : List (K × V)) : List (K × V) :=
   if limit = 0 then l else l.take limit
 
-abbrev State (K V : Type) := Map K V × Map K V
+abbrev State (K V : Type) := Map K V × Map K V × Map K V
 
 /-- the abstract state after a call -/
 def next (cmp : K → K → Int) (s : State K V) : Op K V → State K V
@@ -140,9 +142,10 @@ def next (cmp : K → K → Int) (s : State K V) : Op K V → State K V
   | .deleteMin => (s.1.tail, s.2)
   | .deleteMax => (s.1.dropLast, s.2)
   | .deleteAll => ([], s.2)
-  | .swap => (s.2, s.1)
-  | .selectMatch p => (s.1, s.1.filter (fun x => p x.1 x.2))
-  | .partitionMatch p => (s.1, s.1.filter (fun x => p x.1 x.2))
+  | .swap => (s.2.1, s.1, s.2.2)
+  | .swapC => (s.2.2, s.2.1, s.1)
+  | .selectMatch p => (s.1, s.1.filter (fun x => p x.1 x.2), s.2.2)
+  | .partitionMatch p => (s.1, s.1.filter (fun x => p x.1 x.2), s.1.filter (fun x => !p x.1 x.2))
   | _ => s
 
 /-- the results the abstract map admits for a call.  All are determined except: `FirstMatch` (any
@@ -156,6 +159,7 @@ def admits (cmp : K → K → Int) (eqVal : V → V → Bool) (s : State K V) : 
   | .deleteMax, o => o = .optKV (last s.1)
   | .deleteAll, o => o = .unit
   | .swap, o => o = .unit
+  | .swapC, o => o = .unit
   | .size, o => o = .nat s.1.length
   | .isEmpty, o => o = .bool s.1.isEmpty
   | .height, o => ∃ h, o = .nat h
@@ -176,7 +180,7 @@ def admits (cmp : K → K → Int) (eqVal : V → V → Bool) (s : State K V) : 
     | .rvl | .descending => o = .list (takeLim limit s.1.reverse)
     | .other => o = .list []
     | _ => ∃ l, l.Perm s.1 ∧ o = .list (takeLim limit l)
-  | .equal, o => o = .bool (equal cmp eqVal s.1 s.2)
+  | .equal, o => o = .bool (equal cmp eqVal s.1 s.2.1)
   | .equalOther, o => o = .bool false
   | .anyMatch p, o => o = .bool (s.1.any (fun x => p x.1 x.2))
   | .allMatch p, o => o = .bool (s.1.all (fun x => p x.1 x.2))
